@@ -110,6 +110,8 @@ class Theory:
     self.method_models = {}  # (sortname, meth) -> fn(ex, recv, args, kwargs)
     self.sorts = {'Str': S.STR, 'Int': S.INT}  # name -> Sort (for `every('X')`)
     self.coercions = {}   # (from sort name, to sort name) -> fn(ex, v)
+    self.as_set = {}      # sort name -> fn(ex, v) -> V(SetOf) (iteration over custom set sorts)
+    self.virtual = {}     # (adt name, method) -> (relpath, qualname) used for dynamic dispatch
 
   def bind_adt(self, relpath, clsname, adt, ctor=None):
     self.classes[(relpath, clsname)] = ('adt', adt, ctor)
